@@ -859,7 +859,7 @@ func init() {
 			{Name: "exhaustive-small", Prologue: true, Fn: c13Exhaustive},
 		},
 		Components: map[string][]string{
-			"real": {"pkg/blobstore/completenesschecking (Get, GetFromComposite, findMissingQueue)", "pkg/util VisitProtoBytesFields", "pkg/blobstore/buffer (proto buffers, CAS buffers, clone, error buffers)", "pkg/blobstore CASReadBufferFactory (the model CAS builds its byte-slice / reader / reader-at buffers through it)", "pkg/digest (Function.NewDigestFromProto, Set, SetBuilder)"},
+			"real": {"pkg/blobstore/configuration new_blob_access.go / new_blob_replicator.go / creators (W-config runs: the composite is assembled by the unmodified NewBlobAccessFromConfiguration over model leaves)", "pkg/blobstore/completenesschecking (Get, GetFromComposite, findMissingQueue)", "pkg/util VisitProtoBytesFields", "pkg/blobstore/buffer (proto buffers, CAS buffers, clone, error buffers)", "pkg/blobstore CASReadBufferFactory (the model CAS builds its byte-slice / reader / reader-at buffers through it)", "pkg/digest (Function.NewDigestFromProto, Set, SetBuilder)"},
 			"stub": {"model Action Cache (proto / byte-slice / streamed / absent / garbage entries)", "model CAS (FindMissing answers from a missing-set that may change per call, Get through real CAS buffers over simulated sources, failure/cancellation at the k-th call, request log)", "identity BlobSlicer"},
 		},
 		Rule:           "a case = (digest function, instance, ActionResult with 0-6 output files / stdout / stderr / 0-3 output directories, Trees with 0-4 children in several encodings, batch size 1-5, limits) x (set of objects missing from the CAS, malformed digests, truncated / flipped / malformed Trees, CAS failure or cancellation at the k-th call, stream errors, AC faults); non-trivial = a result with at least one reference was returned and judged against the FindMissing log, or a generated fault caused the rejection; distinct = distinct event-log hash (case description + every model-store call)",
